@@ -35,3 +35,6 @@ CFG = {
                 'dependencies are outside the model.'),
  'note': 'a panic or a profile-dependent result of the implementation on a case is a concrete violation of C01; the model never panics (proved)',
 }
+
+# translator plugins this property needs besides the board tables of tools/gen.py (none)
+CFG["gen_plugins"] = []
